@@ -634,6 +634,7 @@ func lightMedium(c *Ctx, prop string, undo bool, collect ...string) {
 	type auCfg struct {
 		N, within int
 		rems      [][]int
+		parts     int
 	}
 	mk := func(N int) (all, evens []int) {
 		for i := 0; i < N; i++ {
@@ -646,7 +647,15 @@ func lightMedium(c *Ctx, prop string, undo bool, collect ...string) {
 	}
 	var cfgs []auCfg
 	a16, e16 := mk(16)
-	cfgs = append(cfgs, auCfg{16, 16, [][]int{a16, e16}})
+	cfgs = append(cfgs, auCfg{16, 16, [][]int{a16, e16}, 3})
+	// 16 leaves, every two-leaf remember set, unions of up to two (thorough: three) blocks
+	var pairs16 [][]int
+	for i := 0; i < 16; i++ {
+		for j := i + 1; j < 16; j++ {
+			pairs16 = append(pairs16, []int{i, j})
+		}
+	}
+	cfgs = append(cfgs, auCfg{16, 16, pairs16, pick(c, 2, 3)})
 	_, e32 := mk(32)
 	pairs := [][]int{e32}
 	for i := 0; i < 8; i++ {
@@ -656,20 +665,20 @@ func lightMedium(c *Ctx, prop string, undo bool, collect ...string) {
 			}
 		}
 	}
-	cfgs = append(cfgs, auCfg{32, 16, pairs})
+	cfgs = append(cfgs, auCfg{32, 16, pairs, 3})
 	if c.Thorough() {
 		for _, N := range []int{24, 32, 33} {
 			a, e := mk(N)
-			cfgs = append(cfgs, auCfg{N, N, [][]int{a, e}})
+			cfgs = append(cfgs, auCfg{N, N, [][]int{a, e}, 3})
 		}
 	}
-	c.Cov.Bound["aligned_unions"] = "N=16 all unions; N=32 unions within the left half with two-leaf remember sets; thorough: N=24,32,33 all unions"
+	c.Cov.Bound["aligned_unions"] = "N=16 all unions (also with every two-leaf remember set); N=32 unions within the left half with two-leaf remember sets; thorough: N=24,32,33 all unions"
 	for _, cf := range cfgs {
 		rems := cf.rems
 		if prop == "C11" {
 			rems = [][]int{{}}
 		}
-		for _, S := range alignedUnions(cf.N, 3) {
+		for _, S := range alignedUnions(cf.N, cf.parts) {
 			if S[len(S)-1] >= cf.within {
 				continue
 			}
